@@ -131,9 +131,10 @@ structure Inv (v : Variant) (w : World) : Prop where
   counters : Counters v w
   refs : ∀ s, s ∈ w.screens → s.refs = owners w (s.w, s.h)
   scr : ∀ (i : Nat) (c : Conn), w.conns[i]? = some c → c.refHeld = true → hasScreen w.screens c.scr = true
+  main : hasScreen w.screens (64, 48) = true
 
 theorem inv_init (v : Variant) : Inv v World.init := by
-  refine ⟨by simp [World.init], by simp [World.init], ?_, ?_, ?_, ?_, ?_⟩
+  refine ⟨by simp [World.init], by simp [World.init], ?_, ?_, ?_, ?_, ?_, by simp [World.init, hasScreen]⟩
   · intro i c h; simp [World.init] at h
   · intro i c h; simp [World.init] at h
   · simp [Counters, World.init]
@@ -141,7 +142,7 @@ theorem inv_init (v : Variant) : Inv v World.init := by
   · intro i c h; simp [World.init] at h
 
 theorem inv_emit {v : Variant} {w : World} (h : Inv v w) (e : Event) : Inv v (emit w e) :=
-  ⟨h.nodup, h.bound, h.live, h.dead, h.counters, h.refs, h.scr⟩
+  ⟨h.nodup, h.bound, h.live, h.dead, h.counters, h.refs, h.scr, h.main⟩
 
 /-- a record update that keeps the record's place in the life cycle -/
 theorem inv_modConn {v : Variant} {w : World} (h : Inv v w) (i : Nat) (f : Conn → Conn)
@@ -149,7 +150,7 @@ theorem inv_modConn {v : Variant} {w : World} (h : Inv v w) (i : Nat) (f : Conn 
     (hd : ∀ c, w.conns[i]? = some c → i ∉ w.list → DeadOk v c → DeadOk v (f c))
     (hr : ∀ c, w.conns[i]? = some c → (f c).refHeld = c.refHeld ∧ (f c).scr = c.scr) :
     Inv v (modConn w i f) := by
-  refine ⟨h.nodup, ?_, ?_, ?_, h.counters, ?_, ?_⟩
+  refine ⟨h.nodup, ?_, ?_, ?_, h.counters, ?_, ?_, h.main⟩
   · intro j hj; simpa using h.bound j hj
   · intro j c hc hj
     rw [modConn_get] at hc
